@@ -287,3 +287,210 @@ def path_mode(fn, conds):
             elif isinstance(test, ast.Compare) and isinstance(test.ops[0], ast.NotEq):
                 target = not pol
     return ('3mr' if mode3 else 'plain' if mode3 is False else None, 'target-only' if target else 'pairwise' if target is False else None)
+
+
+# ---------------------------------------------------------------------------------------------
+# model of mixed_rank_graph: what is returned, per configuration path, written over the parameters
+# ---------------------------------------------------------------------------------------------
+IE_MOD = 'outrank.algorithms.importance_estimator'
+POOL_METHODS = ('amap', 'map', 'imap', 'uimap', 'apipe', 'pipe', 'starmap')
+
+
+def _heur_pred(e):
+    return isinstance(e, ast.Attribute) and e.attr == 'heuristic'
+
+
+class MRGPath:
+    def __init__(self, model, heuristic, assume, res):
+        self.model, self.heuristic, self.assume, self.res = model, heuristic, assume, res
+        fn = model.fn
+        self.rows_expr = None
+        r = res.returned
+        if isinstance(r, ast.Call) and r.args:
+            self.rows_expr = r.args[0]
+        elif isinstance(r, ast.Call):
+            kw = [k.value for k in r.keywords if k.arg in ('triplet_scores', 'triplets', 'scores')]
+            self.rows_expr = kw[0] if kw else None
+        self.rows = term_of(fn, self.rows_expr, inline=False) if self.rows_expr is not None else None
+
+    def describe(self):
+        return f"heuristic {self.heuristic!r}" + (', ' + ', '.join(f'{ast.unparse(t)[:40]} is {v}' for t, v in self.assume) if self.assume else '')
+
+
+class MRGModel:
+    """Path evaluation of mixed_rank_graph for a few heuristic names: the rows handed to BatchRankingSummary as one expression over
+    the parameters (loops that build lists are summarised as comprehensions, helper calls are expanded, locals substituted)."""
+
+    def __init__(self, repo):
+        from ..match import run_paths
+        self.repo = repo
+        self.fn = repo.func(CR, 'mixed_rank_graph')
+        self.m = self.fn.module
+        self.paths = []
+        self.broken = None
+        for h in ('Constant', 'MI-numba-randomized', 'MI', 'surrogate-SGD'):
+            ps = run_paths(self.fn, _heur_pred, h, max_forks=4)
+            if ps is None:
+                self.broken = f'too many configuration tests to fork on for heuristic {h!r}'
+                continue
+            for assume, res in ps:
+                self.paths.append(MRGPath(self, h, assume, res))
+
+    # -- patterns -------------------------------------------------------------------------
+    def pat(self, src, holes=()):
+        from ..terms import pattern
+        return pattern(self.m, src, holes)
+
+    def mirrored(self, rows):
+        """R when rows is the flat list of (t[1], t[0], t[2]) and t for every t of R (either order), else None"""
+        from ..terms import unify
+        for src in ('[x for t in R for x in ((t[1], t[0], t[2]), t)]', '[x for t in R for x in (t, (t[1], t[0], t[2]))]'):
+            b = unify(self.pat(src, ['R']), rows)
+            if b is not None:
+                return b['R']
+        return None
+
+    def pool_results(self, term):
+        """(pool method, worker term, combinations term) when term is the list of results of one pool submission, else None"""
+        from ..terms import unify
+        for meth in POOL_METHODS:
+            for src in (f'P.{meth}(W, C).get()', f'P.{meth}(W, C)', f'list(P.{meth}(W, C))', f'list(P.{meth}(W, C).get())'):
+                b = unify(self.pat(src, ['P', 'W', 'C']), term)
+                if b is not None:
+                    return meth, b['W'], b['C']
+        return None
+
+    def constant_rows(self, rows):
+        """C when rows is [(c[0], c[1], 0.0) for c in C]"""
+        from ..terms import unify
+        b = unify(self.pat('[(c[0], c[1], 0.0) for c in C]', ['C']), rows)
+        return b['C'] if b is not None else None
+
+    def sampled(self, comb_term):
+        """candidate term when comb_term is prior_combinations_sample(<candidates>, args) (default counter), else None"""
+        from ..terms import unify
+        args = self.fn.params[1]
+        for src in (f'{CR}.prior_combinations_sample(K, {args})',):
+            b = unify(self.pat(src, ['K']), comb_term)
+            if b is not None:
+                return b['K']
+        return None
+
+    # -- the worker ------------------------------------------------------------------------
+    def submission(self, path):
+        """the ast.Call that submits to the pool on this path (found in the returned expression), or None"""
+        if path.rows_expr is None:
+            return None
+        for n in ast.walk(path.rows_expr):
+            if isinstance(n, ast.Call) and isinstance(n.func, ast.Attribute) and n.func.attr in POOL_METHODS and len(n.args) >= 2:
+                return n
+        return None
+
+    def worker_binding(self, path):
+        """{parameter of get_importances_estimate_pairwise: ast expression over mixed_rank_graph's parameters}, plus '__elem__': the parameter
+        that receives the mapped combination; None when the worker cannot be resolved"""
+        from ..match import bind_args, _Subst
+        import copy
+        sub = self.submission(path)
+        if sub is None:
+            return None
+        target = self.repo.func(IE_MOD, 'get_importances_estimate_pairwise')
+        w = sub.args[0]
+        env = path.res.env or {}
+
+        def subst(e, drop=()):
+            e2 = {k: v for k, v in env.items() if k not in drop}
+            return ast.fix_missing_locations(_Subst(e2).visit(copy.deepcopy(e)))
+        call, elem = None, None
+        if isinstance(w, ast.Name):
+            fdef = None
+            for n in ast.walk(self.fn.node):
+                if isinstance(n, ast.FunctionDef) and n.name == w.id and n is not self.fn.node:
+                    fdef = n
+            if fdef is None or len(fdef.args.args) != 1:
+                return None
+            body = [b for b in fdef.body if not (isinstance(b, ast.Expr) and isinstance(b.value, ast.Constant))]
+            if len(body) != 1 or not isinstance(body[0], ast.Return) or not isinstance(body[0].value, ast.Call):
+                return None
+            call, elem = body[0].value, fdef.args.args[0].arg
+            if self.m.dotted(call.func) != f'{IE_MOD}.get_importances_estimate_pairwise':
+                return None
+            ba = bind_args(call, target)
+            out = {}
+            for k, v in ba.items():
+                if isinstance(v, ast.Name) and v.id == elem:
+                    out['__elem__'] = k
+                    out[k] = v
+                else:
+                    out[k] = subst(v, drop=(elem,))
+            out['__site__'] = call
+            return out
+        if isinstance(w, ast.Lambda) and len(w.args.args) == 1 and isinstance(w.body, ast.Call) and self.m.dotted(w.body.func) == f'{IE_MOD}.get_importances_estimate_pairwise':
+            elem = w.args.args[0].arg
+            ba = bind_args(w.body, target)
+            out = {k: v for k, v in ba.items()}
+            for k, v in ba.items():
+                if isinstance(v, ast.Name) and v.id == elem:
+                    out['__elem__'] = k
+            out['__site__'] = w.body
+            return out
+        if isinstance(w, ast.Call) and self.m.dotted(w.func) == 'functools.partial' and w.args and self.m.dotted(w.args[0]) == f'{IE_MOD}.get_importances_estimate_pairwise':
+            fake = ast.Call(func=w.args[0], args=list(w.args[1:]), keywords=list(w.keywords))
+            ba = bind_args(fake, target)
+            free = [p for p in target.params if p not in ba]
+            out = dict(ba)
+            if free:
+                out['__elem__'] = free[0]
+            out['__site__'] = w
+            return out
+        return None
+
+
+_MRG_CACHE = {}
+
+
+def mrg_model(repo) -> MRGModel:
+    k = id(repo)
+    if k not in _MRG_CACHE:
+        _MRG_CACHE.clear()
+        _MRG_CACHE[k] = MRGModel(repo)
+    return _MRG_CACHE[k]
+
+
+def column_coding(repo, fn, frame_expr):
+    """How the frame `frame_expr` (an expression over fn's parameters) codes the columns of fn's first parameter.
+    Returns (kind, detail): kind in 'category' | 'factorize-sorted' | 'factorize' | 'unknown'."""
+    from ..terms import pattern, unify
+    m = fn.module
+    F = fn.params[0]
+    t = term_of(fn, frame_expr, inline=False)
+    ctor = None
+    for src in ('pandas.DataFrame(D)', 'pandas.DataFrame(D, index=I)', 'pandas.DataFrame(data=D)', 'pandas.DataFrame(D, index=I, columns=Q)'):
+        b = unify(pattern(m, src, ['D', 'I', 'Q']), t)
+        if b is not None:
+            ctor = b
+            break
+    if ctor is None or ctor['D'][0] != 'dictcomp' or len(ctor['D'][2]) != 1 or ctor['D'][2][0][1]:
+        return 'unknown', f'not a frame built column by column from a dict comprehension: {show(t)[:120]}'
+    if 'I' in ctor and ctor['I'] != pattern(m, f'{F}.index'):
+        return 'unknown', 'index argument is not the index of the input frame'
+    pair, gens = ctor['D'][1], ctor['D'][2]
+    cols = gens[0][0]
+    k = ('cvar', 0, 0)
+    if pair[1] != k:
+        return 'unknown', 'the key of the dict comprehension is not the column name itself'
+    if cols not in (pattern(m, f'{F}.columns'), pattern(m, F), pattern(m, f'list({F}.columns)'), pattern(m, f'{F}.columns.tolist()'), pattern(m, f'{F}.keys()'), pattern(m, f'list({F})')):
+        return 'unknown', f'the comprehension does not range over all columns of the input frame: {show(cols)[:80]}'
+    v = pair[2]
+    P = lambda src: pattern(m, src, [], {'k': k}) if False else __import__('sa.terms', fromlist=['Canon']).Canon(m, None, inline=False, bound={'k': k}).t(ast.parse(src, mode='eval').body)
+    cat = [f"{F}.copy().astype('category')[k].cat.codes", f"{F}.astype('category')[k].cat.codes", f"{F}[k].astype('category').cat.codes", f"pandas.Categorical({F}[k]).codes", f"{F}.copy()[k].astype('category').cat.codes",
+           f"{F}[k].astype('category').cat.codes.values", f"pandas.Categorical({F}[k].values).codes"]
+    fs = [f"pandas.factorize({F}[k], sort=True)[0]", f"{F}[k].factorize(sort=True)[0]"]
+    fu = [f"pandas.factorize({F}[k])[0]", f"{F}[k].factorize()[0]"]
+    if v in [P(x) for x in cat]:
+        return 'category', show(v)[:100]
+    if v in [P(x) for x in fs]:
+        return 'factorize-sorted', show(v)[:100]
+    if v in [P(x) for x in fu]:
+        return 'factorize', show(v)[:100]
+    return 'unknown', f'column coding not recognised: {show(v)[:120]}'
